@@ -316,6 +316,75 @@ pub fn run_c12(a: &Args, rep: &mut Report) {
         flush(rep, &mut cases);
         rep.set("size_sweep", format!("straight-line programs of 1..={max_n} instructions + one program per residue of the JIT code size modulo 4096 (sliced over shards)"));
     }
+    // opcode-dense programs: N copies of one opcode with the register choices that give the longest
+    // x86 encodings, for every supported opcode and N around every plausible sizing threshold: the
+    // worst case of "native bytes per eBPF instruction" for whatever sizing rule the compiler uses
+    {
+        use crate::isa::{op_info, Shape};
+        let ns: &[usize] = if q { &[1, 2, 7, 31, 63, 64, 65, 96, 120, 125, 126, 127, 128, 129, 255, 256, 257, 500, 1000] }
+                           else { &[1, 2, 3, 5, 7, 15, 31, 32, 33, 63, 64, 65, 90, 96, 100, 110, 120, 124, 125, 126, 127, 128, 129, 130, 200, 255, 256, 257, 300, 500, 511, 512, 513, 1000, 2000, 4095, 4096, 4097, 10000] };
+        let mut cell = 0u64;
+        let mut nd = 0u64;
+        for opc in 0..=255u8 {
+            let Some(info) = op_info(opc) else { continue };
+            if matches!(info.shape, Shape::TailCall) {
+                continue;
+            }
+            for (ri, (d, sr)) in [(7u8, 8u8), (0, 0), (9, 4), (3, 3)].iter().enumerate() {
+                for &n in ns {
+                    cell += 1;
+                    if cell % a.nshards != a.shard % a.nshards || (q && ri >= 2 && n > 130) {
+                        continue;
+                    }
+                    let one: Vec<Insn> = match info.shape {
+                        Shape::AluImm => vec![Insn::new(opc, *d, 0, 0, if ri % 2 == 0 { 0x7fff_fff1 } else { 1 })],
+                        Shape::AluReg => vec![Insn::new(opc, *d, *sr, 0, 0)],
+                        Shape::Unary => vec![Insn::new(opc, *d, 0, 0, 0)],
+                        Shape::Endian => vec![Insn::new(opc, *d, 0, 0, [16, 32, 64][ri % 3])],
+                        Shape::LdAbs => vec![Insn::new(opc, 0, 0, 0, 0x1000)],
+                        Shape::LdInd => vec![Insn::new(opc, 0, *sr, 0, 0x1000)],
+                        Shape::LdReg => vec![Insn::new(opc, *d, 10, if ri % 2 == 0 { -256 } else { -8 }, 0)],
+                        Shape::StImm => vec![Insn::new(opc, 10, 0, if ri % 2 == 0 { -256 } else { -8 }, -2)],
+                        Shape::StReg | Shape::Xadd => vec![Insn::new(opc, 10, *sr, if ri % 2 == 0 { -256 } else { -8 }, 0)],
+                        Shape::Ja => vec![Insn::new(opc, 0, 0, 0, 0)],
+                        Shape::JmpImm => vec![Insn::new(opc, *d, 0, 0, -7)],
+                        Shape::JmpReg => vec![Insn::new(opc, *d, *sr, 0, 0)],
+                        Shape::Call => vec![if ri % 2 == 0 { Insn::new(opc, 0, 0, 0, 1) } else { Insn::new(opc, 0, 1, 0, 0) }],
+                        Shape::Exit => vec![Insn::new(opc, 0, 0, 0, 0)],
+                        Shape::Lddw => vec![Insn::new(opc, *d, 0, 0, -1), Insn::new(0, 0, 0, 0, 0x7fff_ffff)],
+                        Shape::TailCall => unreachable!(),
+                    };
+                    let mut v: Vec<Insn> = Vec::with_capacity(n * one.len() + 6);
+                    for r in 0..10u8 {
+                        v.push(Insn::new(MOV64_IMM, r, 0, 0, 2 + r as i32));
+                    }
+                    for _ in 0..n {
+                        v.extend(one.iter().cloned());
+                    }
+                    v.push(Insn::new(EXIT, 0, 0, 0, 0));
+                    let kind = crate::engines::KINDS[(cell as usize + a.seed as usize) % 4];
+                    let mut c = Case::new(kind, encode_prog(&v), "opcode-dense");
+                    c.class = "opcode-dense".into();
+                    if kind != Kind::NoData {
+                        c.pkt = vec![1, 2, 3, 4, 5, 6, 7, 8];
+                    }
+                    if kind == Kind::Mbuff {
+                        c.mbuff = vec![0; 16];
+                    }
+                    if matches!(info.shape, Shape::Call) && ri % 2 == 0 {
+                        c.helpers = vec![(1, 0)];
+                    }
+                    nd += 1;
+                    cases.push((c, "opcode-dense"));
+                    if cases.len() >= 64 {
+                        flush(rep, &mut cases);
+                    }
+                }
+            }
+        }
+        flush(rep, &mut cases);
+        rep.add("opcode_dense_programs", nd);
+    }
     // long programs (JIT up to the limit, Cranelift up to 20k/100k)
     let lens: &[usize] = if q { &[4_000, 33_000, 70_000] } else { &[4_000, 20_000, 33_000, 70_000, 131_100, 500_000, 1_000_000] };
     for (i, len) in lens.iter().enumerate() {
